@@ -20,6 +20,9 @@ run_cardinality:  contract of the three cardinality attributes (setter and set_*
     ensures   stored value is None or (min, max) in normal form; otherwise ValueError and old value kept
     report    warning 500/501/502 for the object  <=>  child count outside [min, max]
     never enforced; survives save+load in XML, JSON, YAML
+    frame     in a document with several Sections / Properties every object comes back from save+load (string and
+              file) with its own cardinalities only - an unset one stays unset whatever siblings, ancestors or
+              children carry - and the loaded document warns for exactly the objects outside their own range
 
 All oracles are written from the property statements; the library is only called, never consulted.
 """
@@ -1446,6 +1449,240 @@ def same_card(x, y):
     return norm(x) == norm(y)
 
 
+# --- (d) documents in which several objects carry different cardinalities --------------------------------
+#
+# A model of the document (plain dicts, built here, never read back from the library) says for every Section
+# and Property which cardinalities it has and how many children it has.  The document is built from the model,
+# saved and loaded, and the loaded objects are compared with the model object by object: each one must have
+# exactly its own cardinalities (an unset one stays unset), and a warning must be reported for exactly the
+# objects whose child count lies outside their own range.
+
+CARD_CLASSES = ('unset', 'min-only', 'max-only', 'range', 'exact')
+VID_KIND = {502: 'values', 501: 'sections', 500: 'properties'}
+UNSET = ('unset', 'unset')
+
+
+def class_card(cls, v):
+    """A cardinality of the class; the variant v makes equal classes in one document differ in their numbers."""
+    a = 1 + v % 3
+    return {'unset': None, 'min-only': (a, None), 'max-only': (None, a), 'range': (a, a + 1), 'exact': (a, a)}[cls]
+
+
+def card_class(c):
+    if c is None:
+        return 'unset'
+    lo, hi = c[0] or None, c[1]
+    return 'min-only' if hi is None else 'max-only' if lo is None else 'exact' if lo == hi else 'range'
+
+
+def prop_model(name, n, cls, v):
+    return {'name': name, 'n': n, 'values': class_card(cls, v)}
+
+
+def sec_model(name, profile, v, props=(), subs=()):
+    """profile = (class of sec_cardinality, class of prop_cardinality)"""
+    return {'name': name, 'sections': class_card(profile[0], v), 'properties': class_card(profile[1], v + 1),
+            'props': list(props), 'subs': list(subs)}
+
+
+def wrap_levels(roots, level, profiles, rot):
+    """Put the sibling group `level` Sections deep; every wrapper is followed by a Section without cardinalities
+    and preceded by nothing, so a group member has ancestors, the ancestors have later siblings."""
+    for d in range(level):
+        w = sec_model('w%d' % d, profiles[(d + rot) % len(profiles)], rot + d + 1,
+                      props=[prop_model('wp', (rot + d) % 3, CARD_CLASSES[(rot + d) % 5], rot)], subs=roots)
+        z = sec_model('z%d' % d, UNSET, 0, props=[prop_model('zp%d' % j, j, 'unset', 0) for j in range(2)])
+        roots = [w, z]
+    return roots
+
+
+def section_group(profiles, level, rot):
+    """k sibling Sections with the given profiles in the given order.  Member i has (i + rot) % 3 sub-Sections
+    (alternately with the profile of the next member and without cardinalities) and (i + rot + 1) % 4 Properties
+    whose val_cardinality classes rotate."""
+    k = len(profiles)
+    group = []
+    for i, prof in enumerate(profiles):
+        subs = []
+        for j in range((i + rot) % 3):
+            leaf_props = [prop_model('lp', (i + j) % 3, CARD_CLASSES[(rot + i + j) % 5], rot + j)] if (i + j) % 2 else []
+            subs.append(sec_model('g%dc%d' % (i, j), profiles[(i + 1) % k] if j % 2 == 0 else UNSET, rot + i + j + 2,
+                                  props=leaf_props))
+        props = [prop_model('p%d' % j, (i + j + rot) % 4, CARD_CLASSES[(rot + i + 2 * j) % 5], rot + i + j)
+                 for j in range((i + rot + 1) % 4)]
+        group.append(sec_model('g%d' % i, prof, rot + i, props, subs))
+    return wrap_levels(group, level, profiles, rot)
+
+
+def property_group(classes, level, rot):
+    """k sibling Properties with the given val_cardinality classes in the given order inside one Section, which
+    is followed by a Section whose Property has no cardinality."""
+    props = [prop_model('p%d' % j, (j + rot) % 4, c, rot + j) for j, c in enumerate(classes)]
+    prof = (CARD_CLASSES[rot % 5], CARD_CLASSES[(rot // 5) % 5])
+    roots = [sec_model('s', prof, rot, props=props),
+             sec_model('t', UNSET, 0, props=[prop_model('p0', 2, 'unset', 0)])]
+    return wrap_levels(roots, level, [prof, UNSET], rot)
+
+
+def build_model(roots):
+    with h.quiet():
+        doc = odml.Document()
+
+        def mk(parent, s):
+            sec = odml.Section(name=s['name'], type='t', parent=parent)
+            for p in s['props']:
+                prop = odml.Property(name=p['name'], dtype='int', values=list(range(p['n'])) if p['n'] else None,
+                                     parent=sec)
+                prop.val_cardinality = p['values']
+            for c in s['subs']:
+                mk(sec, c)
+            sec.sec_cardinality = s['sections']
+            sec.prop_cardinality = s['properties']
+        for s in roots:
+            mk(doc, s)
+    return doc
+
+
+def model_table(roots):
+    """{(path, kind): (cardinality, child count)} and {path: (parent path, index among its siblings, 'S'|'P')}"""
+    table, rel = {}, {}
+
+    def rec(s, parent, idx):
+        path = parent + '/' + s['name']
+        rel[path] = (parent, idx, 'S')
+        table[(path, 'sections')] = (s['sections'], len(s['subs']))
+        table[(path, 'properties')] = (s['properties'], len(s['props']))
+        for j, p in enumerate(s['props']):
+            rel[path + ':' + p['name']] = (path, j, 'P')
+            table[(path + ':' + p['name'], 'values')] = (p['values'], p['n'])
+        for j, c in enumerate(s['subs']):
+            rec(c, path, j)
+    for i, s in enumerate(roots):
+        rec(s, '', i)
+    return table, rel
+
+
+def lib_table(doc):
+    """The same table read from a library document through its private fields, and {id(object): path}."""
+    table, ids = {}, {}
+
+    def rec(sec, parent):
+        path = parent + '/' + str(sec._name)
+        ids[id(sec)] = path
+        subs = list(list.__iter__(sec._sections))
+        props = list(list.__iter__(sec._props))
+        table[(path, 'sections')] = (sec._sec_cardinality, len(subs))
+        table[(path, 'properties')] = (sec._prop_cardinality, len(props))
+        for p in props:
+            ids[id(p)] = path + ':' + str(p._name)
+            table[(path + ':' + str(p._name), 'values')] = (p._val_cardinality, len(p._values))
+        for c in subs:
+            rec(c, path)
+    for s in list.__iter__(doc._sections):
+        rec(s, '')
+    return table, ids
+
+
+def doc_warnings(doc, ids):
+    """set of (path, kind) for which the document validation reports a cardinality warning | None"""
+    st, val = h.call(odml.validation.Validation, doc)
+    if st == 'exc':
+        return None
+    return set((ids.get(id(e.obj), '?'), VID_KIND[getattr(e.validation_id, 'value', e.validation_id)])
+               for e in val.errors
+               if getattr(e.validation_id, 'value', e.validation_id) in VID_KIND and e.rank == 'warning')
+
+
+def card_source(table, rel, path, kind, got):
+    """Where in the saved document the wrongly loaded cardinality occurs (relative to the object)."""
+    if got is None:
+        return 'nothing'
+    parent, idx, typ = rel[path]
+    found = set()
+    for (p2, k2), (c2, _) in table.items():
+        if c2 is None or not same_card(c2, got) or (p2, k2) == (path, kind):
+            continue
+        par2, idx2, typ2 = rel[p2]
+        if p2 == path:
+            found.add('same-object-other-kind')
+        elif par2 == parent and typ2 == typ and k2 == kind:
+            found.add('earlier-sibling' if idx2 < idx else 'later-sibling')
+        elif par2 == parent and typ2 == typ:
+            found.add('sibling-other-kind')
+        elif path.startswith(p2 + '/') or path.startswith(p2 + ':'):
+            found.add('ancestor')
+        elif p2.startswith(path + '/') or p2.startswith(path + ':'):
+            found.add('descendant')
+        else:
+            found.add('elsewhere')
+    for s in ('earlier-sibling', 'later-sibling', 'ancestor', 'descendant', 'same-object-other-kind',
+              'sibling-other-kind', 'elsewhere'):
+        if s in found:
+            return s
+    return 'new-value'
+
+
+def round_trip(doc, fmt, io, path):
+    """('ok', loaded) | ('save'|'load', exception)"""
+    from odml.tools.odmlparser import ODMLWriter, ODMLReader
+    if io == 'file':
+        st, r = h.call(odml.save, doc, path, fmt)
+        if st == 'exc':
+            return 'save', r
+        st, back = h.call(odml.load, path, fmt)
+    else:
+        st, r = h.call(ODMLWriter(fmt).to_string, doc)
+        if st == 'exc':
+            return 'save', r
+        st, back = h.call(ODMLReader(fmt, show_warnings=False).from_string, r)
+    if st == 'exc':
+        return 'load', back
+    if not isinstance(back, h.BaseDocument):
+        return 'load', TypeError('reader returned %s' % type(back).__name__)
+    return 'ok', back
+
+
+def multi_object_cases(tier):
+    """(group kind, number of siblings, level, description, model roots): every order of cardinality classes
+    over 2..4 siblings."""
+    quick = tier == 'quick'
+    profiles = [(a, b) for a in CARD_CLASSES for b in CARD_CLASSES]
+    n = 0
+    # two sibling Sections: every ordered pair of (sec class, prop class) profiles
+    for pa in profiles:
+        for pb in profiles:
+            n += 1
+            for level in ([n % 3] if quick else [0, 1, 2]):
+                yield 'sections', 2, level, '%s|%s' % ('+'.join(pa), '+'.join(pb)), section_group([pa, pb], level, n)
+    # three and four sibling Sections: per cardinality kind every sequence of classes, the other kind rotates
+    for k in (3, 4):
+        classes = CARD_CLASSES if not (quick and k == 4) else ('unset', 'min-only', 'range')
+        for which in (0, 1):
+            for seq in itertools.product(classes, repeat=k):
+                n += 1
+                other = [CARD_CLASSES[(2 * CARD_CLASSES.index(c) + i + n) % 5] for i, c in enumerate(seq)]
+                profs = [(c, o) if which == 0 else (o, c) for c, o in zip(seq, other)]
+                for level in ([n % 3] if quick or k == 4 else [0, 1, 2]):
+                    yield ('sections', k, level, '%s:%s' % (('sec', 'prop')[which], '|'.join(seq)),
+                           section_group(profs, level, n))
+    # two to four sibling Properties: every sequence of val_cardinality classes
+    for k in (2, 3, 4):
+        classes = CARD_CLASSES if not (quick and k == 4) else ('unset', 'max-only', 'exact')
+        for seq in itertools.product(classes, repeat=k):
+            n += 1
+            for level in ([n % 2] if quick or k == 4 else [0, 1]):
+                yield 'properties', k, level, 'val:' + '|'.join(seq), property_group(seq, level, n)
+
+
+def set_pattern(roots):
+    """Which siblings of the top group have which kinds set: the diversity class of a multi-object case."""
+    while roots and roots[0]['name'].startswith('w'):
+        roots = roots[0]['subs']
+    if roots and roots[0]['name'] == 's':
+        return 'v:' + ''.join('U' if p['values'] is None else 'S' for p in roots[0]['props'])
+    return '/'.join(('U' if s['sections'] is None else 'S') + ('U' if s['properties'] is None else 'S') for s in roots)
+
+
 def run_cardinality(tier='quick', seed=0):
     name = 'C09.cardinality'
     settings = card_settings()
@@ -1457,10 +1694,18 @@ def run_cardinality(tier='quick', seed=0):
              '(min,max) over {None,0..4} x 3 kinds x every ordered pair of child counts (count when set -> count when '
              'validated) in 0..5, children added/removed one at a time after the cardinality was set, validated at '
              'object and at document level; (c) persistence: every valid (min,max) and None x 3 kinds x XML/JSON/YAML; '
-             'distinct = (part, kind, route/format, setting class, count relation, outcome)' % len(settings),
+             '(d) documents with several cardinalities: 2 sibling Sections with every ordered pair of (sec, prop) '
+             'cardinality classes from {unset,(n,None),(None,n),(m,n),(n,n)}^2, 3 and 4 sibling Sections with every '
+             'class sequence per kind (quick: 3 classes for 4 siblings), 2..4 sibling Properties with every sequence of '
+             'val_cardinality classes, the group 0..2 Sections deep with sub-Sections, Properties and following '
+             'Sections that carry other cardinalities, x XML/JSON/YAML x string/file (quick: XML and JSON string for '
+             'every document, the other four routes in turn): every loaded object has exactly its own cardinalities '
+             'and the loaded document warns for exactly the objects outside their range; '
+             'distinct = (part, kind, route/format, setting class, count relation / set-unset pattern of the siblings, '
+             'outcome)' % len(settings),
         exhaustive=True)
     agg = Agg()
-    work = os.path.join(h.WORK, 'b_values')
+    work = os.path.join(h.WORK, 'b_values_card_%d' % os.getpid())
     os.makedirs(work, exist_ok=True)
 
     def fail(clause, kind, feature, witness, detail, extra=None):
@@ -1605,10 +1850,71 @@ def run_cardinality(tier='quick', seed=0):
                 if not same_card(got, stored):
                     fail('survives-save-load', kind, label, wit,
                          'saved %r, loaded %r' % (stored, got), {'format': fmt})
+
+    # (d) several objects with different cardinalities in one document ---------------------------------
+    case_no = 0
+    for gkind, k, level, desc, roots in multi_object_cases(tier):
+        table, rel = model_table(roots)
+        st, doc = h.call(build_model, roots)
+        built = lib_table(doc)[0] if st == 'ret' else None
+        if built is None or set(built) != set(table) or any(
+                built[key][1] != table[key][1] or not same_card(built[key][0], table[key][0]) for key in table):
+            col.case(cls_key=('docs', gkind, 'not-buildable'))
+            continue                # single assignments are judged in (a)
+        want_warn = set(key for key, (c, cnt) in table.items() if outside(c, cnt))
+        pattern = set_pattern(roots)
+        case_no += 1
+        routes = [(fmt, io) for fmt in ('XML', 'JSON', 'YAML') for io in ('string', 'file')]
+        if tier == 'quick':         # both readers (XML, dict) for every document, the slower routes in turn
+            slow = [r for r in routes if r not in (('XML', 'string'), ('JSON', 'string'))]
+            routes = [('XML', 'string'), ('JSON', 'string'), slow[case_no % len(slow)]]
+        for fmt, io in routes:
+            col.case(cls_key=('docs', gkind, k, level, fmt, io, pattern),
+                     sample='%d sibling %s %s, %d levels deep, %s %s' % (k, gkind, desc, level, fmt, io))
+            wit = {'siblings': gkind, 'classes': desc, 'level': level, 'format': fmt, 'io': io, 'model': roots}
+            extra = {'format': fmt, 'io': io}
+            st, back = round_trip(doc, fmt, io, os.path.join(work, 'multi.%s' % fmt.lower()))
+            if st != 'ok':
+                fail('documents-survive-save-load', 'any', '%s-raises' % st, wit,
+                     '%s raised %s: %s' % (st, type(back).__name__, back), extra)
+                continue
+            got, ids = lib_table(back)
+            changed = set()
+            for key in sorted(table):
+                path, kind = key
+                own, cnt = table[key]
+                if key not in got:
+                    if (rel[path][0], 'sections') in got or not rel[path][0]:      # report the topmost only
+                        fail('objects-survive-save-load', kind, 'object-missing-after-load', wit,
+                             '%s is not in the loaded document' % path, extra)
+                    continue
+                if not same_card(got[key][0], own):
+                    changed.add(key)
+                    fail('own-cardinality-after-load', kind,
+                         'own=%s;loaded=that-of-%s' % (card_class(own), card_source(table, rel, path, kind, got[key][0])),
+                         wit, '%s: %s saved as %r, loaded as %r'
+                         % (path, KINDS[kind][0], own, got[key][0]), extra)
+            have_warn = doc_warnings(back, ids)
+            if have_warn is None:
+                fail('loaded-document-warnings', 'any', 'validation-raises', wit,
+                     'Validation of the loaded document raised', extra)
+                continue
+            for key in sorted(want_warn ^ have_warn):
+                if key not in got or key not in table or got[key][1] != table[key][1]:
+                    continue            # object or children lost / unknown object: not a cardinality clause
+                fail('loaded-document-warnings', key[1],
+                     '%s:%s' % ('missing-warning' if key in want_warn else 'extra-warning',
+                                'cardinality-changed-by-load' if key in changed else
+                                position(table[key][0], table[key][1]) if table[key][0] else 'unset'),
+                     wit, '%s (%s %r, %d children): the loaded document %s the warning; the saved one %s'
+                     % (key[0], KINDS[key[1]][0], table[key][0], table[key][1],
+                        'lacks' if key in want_warn else 'reports', 'needs it' if key in want_warn else 'must not'),
+                     extra)
     shutil.rmtree(work, ignore_errors=True)
 
     agg._merge('route', lambda pres: {'setter', 'method'} <= pres, 'either')
     agg._merge('kind', lambda pres: set(KINDS) <= pres, 'any')
+    agg._merge('io', lambda pres: {'string', 'file'} <= pres, 'both')
     agg._merge('format', lambda pres: {'XML', 'JSON', 'YAML'} <= pres, 'any')
     agg._merge('level', lambda pres: {'object', 'document'} <= pres, 'both')
     for k in sorted(agg.d, key=repr):
